@@ -23,10 +23,10 @@ ASSUMPTIONS = [
     "the forward error of a solve at lambda up to 1e7 is conditioning, so the optimality residual is the verdict for general lambda",
     "series for the log filters are strictly positive",
 ]
-REQUIRED_COUNTERS = {"readonly_inputs_to_moment_summary": 100, "readonly_inputs_to_derived_filters": 100, "same_series_other_lambda": 100, "zero_series": 5, "log_filter_on_ones": 20, "log_filter_on_wild_ratios": 20, "moment_series_above_1e154": 40, "moment_series_integer_typed": 40, "hp_cases": 200, "wrapper_cases": 100, "moment_cases": 200, "constant_series": 20}
+REQUIRED_COUNTERS = {"earlier_results_rechecked_after_a_later_call": 200, "readonly_inputs_to_moment_summary": 100, "readonly_inputs_to_derived_filters": 100, "same_series_other_lambda": 100, "zero_series": 5, "log_filter_on_ones": 20, "log_filter_on_wild_ratios": 20, "moment_series_above_1e154": 40, "moment_series_integer_typed": 40, "hp_cases": 200, "wrapper_cases": 100, "moment_cases": 200, "constant_series": 20}
 SHARDS = {"quick": 8, "thorough": 16}
 
-SHAPES = ["constant", "linear", "alternating", "walk", "noise", "lognormal", "twovalued", "quadratic"]
+SHAPES = ["constant", "linear", "alternating", "walk", "noise", "lognormal", "twovalued", "quadratic", "pm1walk", "level"]
 
 
 def gen_cases(tier, seed):
@@ -49,6 +49,10 @@ def make_series(shape, n, rng, positive=False):
         y = (-1.0) ** t * rng.normal() + rng.normal()
     elif shape == "walk":
         y = np.cumsum(rng.normal(size=n))
+    elif shape == "pm1walk":      # a +-a random walk: the series varies, its absolute first differences do not
+        y = np.cumsum(rng.choice([-1.0, 1.0], size=n)) * float(rng.choice([1.0, 0.5, 3.0]))
+    elif shape == "level":        # a large level with small movements around it (GDP levels, populations)
+        y = 10.0 ** rng.uniform(2, 7) + rng.normal(size=n)
     elif shape == "noise":
         y = rng.normal(size=n)
     elif shape == "lognormal":
@@ -136,6 +140,17 @@ def run_case(desc, ctx):
         out["evals"] += 1
         if form in ("plain", "strided") and not np.array_equal(y, y_before):
             bad("hp_filter changed the array it was given (the caller's series now differs from what was passed)", w)
+        first_cycle, first_trend = np.array(cycle, copy=True), np.array(trend, copy=True)
+        if rep % 2 == 1:
+            # another series of the SAME length is filtered while the first result is still in use: what was returned stays what it was
+            try:
+                with quiet():
+                    ts.hp_filter(make_series(SHAPES[int(rng.integers(len(SHAPES)))], n, rng), float(lam * rng.choice([1.0, 0.1, 10.0])))
+                c["earlier_results_rechecked_after_a_later_call"] = c.get("earlier_results_rechecked_after_a_later_call", 0) + 1
+                if not (np.array_equal(cycle, first_cycle) and np.array_equal(trend, first_trend)):
+                    bad("the cycle / trend returned by one hp_filter call changed when another series of the same length was filtered afterwards", w)
+            except Exception as e:  # noqa: BLE001
+                bad(f"hp_filter raised {type(e).__name__}: {e}", w)
         if rep % 3 == 0:
             # the same series again with another lambda (and back): every call is decided by its own lambda
             lam_b = float(lam * rng.choice([0.01, 100.0]))
@@ -144,6 +159,8 @@ def run_case(desc, ctx):
                     _cb, tb = ts.hp_filter(y, lam_b)
                     _ca, ta = ts.hp_filter(y, lam)
                 c["same_series_other_lambda"] = c.get("same_series_other_lambda", 0) + 1
+                if not (np.array_equal(cycle, first_cycle) and np.array_equal(trend, first_trend)):
+                    bad("the cycle / trend returned by the first hp_filter call changed when the same series was filtered again", w)
                 rb = np.max(np.abs(np.asarray(tb) + lam_b * second_diff_apply(np.asarray(tb, dtype=float)) - y))
                 if not rb <= 1e-11 * (1 + 16 * lam_b) * sc:
                     bad(f"second call on the same series with lambda {lam_b!r} (after lambda {lam!r}): optimality residual {rb!r}", dict(w, second_lambda=lam_b))
